@@ -169,7 +169,11 @@ def _(v):
     warn = v.bool("warn")
     v.call(fn, T, P, warn=warn)
     outT = SP.disj([T < 273.15, T > 273.15 + 350])
-    v.prove("silent_inside", SP.implies(SP.conj([SP.neg(outT), T <= 273.15 + 70]), SP.neg(_warned(v))))
+    # 'never when all inputs lie inside': 0..350 degC and pressure up to 5000 bar (up to 70 degC) / 2000 bar (above).  What happens for a pressure
+    # beyond its limit at an admissible temperature is not part of the property (on the pinned tree the 5000 bar test is unreachable: no warning)
+    p_limit = SP.ite(T <= 273.15 + 70, 5000, 2000)
+    v.prove("silent_inside", SP.implies(SP.conj([SP.neg(outT), P <= p_limit]), SP.neg(_warned(v))))
+    v.prove("at_most_one_warning", len(_range_warnings(v)) <= 1)
     v.prove("warned_outside_temperature", SP.iff(SP.conj([warn, outT]), SP.conj([_warned(v), outT])))
     v.prove("never_when_disabled", SP.implies(SP.neg(warn), SP.neg(_warned(v))))
     v.prove("pressure_warning_above_2000bar_when_hot", SP.implies(SP.conj([warn, SP.neg(outT), T > 273.15 + 70, P > 2000]), _warned(v)))
